@@ -400,6 +400,16 @@ def generate(seed, tier):
     prefix = r.choice(["_cse", "_cse", "_cse", "tmp_", "_c"])
     mappers = [{"m": 0, "parent": None, "kind": "mixin" if mixin else "root",
                 "reverse": r.random() < 0.5, "prefix": prefix, "mapped": []}]
+    if not mixin and r.random() < 0.15:
+        # the caller hands the root mapper assignments it has made itself (name, code):
+        # generated names must stay clear of them
+        preset = []
+        for nm in r.sample([f"{prefix}0", f"{prefix}1", f"{prefix}_u", f"{prefix}_tmp",
+                            f"{prefix}_u_2", "mine"], r.randint(1, 2)):
+            saved, g.pool = g.pool, []
+            preset.append([nm, _strip_cse(g.expr(2))])
+            g.pool = saved
+        mappers[0]["preset"] = preset
     nops = r.randint(3, 25)
     for _ in range(nops):
         x = r.random()
@@ -458,6 +468,7 @@ class _M:
         self.snapshot = ()
         self.ancestors_mapped = []
         self.conflated = False
+        self.preset = []       # [(name, child obj)] assignments the caller made itself
 
 
 def _wrapper_children(o, acc, p, c_shortcuts=True):
@@ -753,7 +764,20 @@ def execute(scenario, open_sigs):
             if d["kind"] == "mixin":
                 m.obj = SplitStr()
             else:
-                m.obj = CCodeMapper(reverse=d["reverse"], cse_prefix=d["prefix"])
+                pre = []
+                for nm, t in d.get("preset") or []:
+                    child = B.build(t)
+                    try:
+                        pre.append((nm, CCodeMapper()(child), child))
+                    except Exception:  # noqa: BLE001
+                        continue
+                if pre:
+                    m.obj = CCodeMapper(reverse=d["reverse"], cse_prefix=d["prefix"],
+                                        cse_name_list=[(nm, tx) for nm, tx, _ in pre])
+                    m.preset = [(nm, child) for nm, _, child in pre]
+                    probe("preset_assignments", len(pre))
+                else:
+                    m.obj = CCodeMapper(reverse=d["reverse"], cse_prefix=d["prefix"])
         else:
             par = ms[d["parent"]]
             if d["kind"] == "copy":
@@ -762,7 +786,7 @@ def execute(scenario, open_sigs):
             else:
                 pairs = [(nm, B.build(t)) for nm, t in d["mapped"]]
                 taken = {n for n, _ in lst(par)} | {n for n, _ in par.mapped} \
-                    | {n for n, _ in par.ancestors_mapped}
+                    | {n for n, _ in par.ancestors_mapped} | {n for n, _ in par.preset}
                 pairs = [(nm, c) for nm, c in pairs if nm not in taken]
                 # the caller only promises children the lineage has not assigned itself
                 uniq = []
@@ -779,6 +803,7 @@ def execute(scenario, open_sigs):
             m.seen = list(par.seen)
             m.names = dict(par.names)
             m.conflated = par.conflated
+            m.preset = list(par.preset)
             m.ancestors_mapped = par.ancestors_mapped + par.mapped
             for nm, c in m.mapped:
                 cc = canon(c)
@@ -830,7 +855,7 @@ def execute(scenario, open_sigs):
                     viol("C14/use-before-assignment",
                          {"op": opi, "mapper": m.desc["m"], "in": text, "uses": tok})
                     return
-        n_assigned = len([1 for _, t in entries])
+        n_assigned = len(entries) - len(m.preset)
         if n_assigned != len(m.seen):
             classes = []
             for c in m.seen:
@@ -1136,6 +1161,12 @@ def _build_post(ms, kind, env, fenv, Ref, p, probes):
         if kind == "mixed":
             for child, nm in m.obj.cse_to_name.items():
                 name_type[nm] = {"int": "long long", "float": "double"}.get(ctype_obj(child, p))
+        for nm, child in m.preset:
+            if kind == "mixed":
+                name_type[nm] = {"int": "long long", "float": "double"}.get(ctype_obj(child, p))
+            v, bad = _ref_value(Ref, child, ctx)
+            if v is None or bad or not _narrow_ok(child, v, kind, fenv):
+                runnable = False
         for n, t in entries:
             ct = name_type.get(n, ctype) if kind == "mixed" else ctype
             if kind == "cplx":
